@@ -644,14 +644,7 @@ func calculateTextEditRange(content string, pos protocol.Position, ctxType Compl
 	var startByte int
 	switch ctxType {
 	case ContextAccount:
-		if strings.HasPrefix(beforeCursor, directiveAccount) {
-			startByte = len(directiveAccount)
-		} else if strings.HasPrefix(beforeCursor, directiveApplyAccount) {
-			startByte = len(directiveApplyAccount)
-		} else {
-			trimmed := strings.TrimLeft(beforeCursor, " \t")
-			startByte = byteCol - len(trimmed)
-		}
+		startByte = accountQueryStart(beforeCursor)
 	case ContextCommodity:
 		if strings.HasPrefix(beforeCursor, directiveCommodity) {
 			startByte = len(directiveCommodity)
@@ -659,15 +652,7 @@ func calculateTextEditRange(content string, pos protocol.Position, ctxType Compl
 			startByte = findCommodityStart(beforeCursor, byteCol)
 		}
 	case ContextPayee:
-		spaceIdx := strings.Index(beforeCursor, " ")
-		if spaceIdx != -1 {
-			startByte = spaceIdx + 1
-			for startByte < byteCol && (line[startByte] == ' ' || line[startByte] == '*' || line[startByte] == '!') {
-				startByte++
-			}
-		} else {
-			startByte = byteCol
-		}
+		startByte = payeeQueryStart(beforeCursor)
 	default:
 		return nil
 	}
@@ -677,6 +662,35 @@ func calculateTextEditRange(content string, pos protocol.Position, ctxType Compl
 		Start: protocol.Position{Line: pos.Line, Character: uint32(startChar)},
 		End:   pos,
 	}
+}
+
+// accountQueryStart returns the offset in beforeCursor (the line up to the cursor) at which the
+// account name being typed starts: after the directive keyword or, on a posting line, after
+// the indent, a status mark and the opening bracket of a virtual posting.
+func accountQueryStart(beforeCursor string) int {
+	if strings.HasPrefix(beforeCursor, directiveAccount) {
+		return len(directiveAccount)
+	}
+	if strings.HasPrefix(beforeCursor, directiveApplyAccount) {
+		return len(directiveApplyAccount)
+	}
+	return len(beforeCursor) - len(strings.TrimLeft(beforeCursor, " \t*!(["))
+}
+
+// payeeQueryStart returns the offset in beforeCursor (a transaction line up to the cursor) at
+// which the payee being typed starts: after the date, a status mark and a transaction code.
+func payeeQueryStart(beforeCursor string) int {
+	_, rest, found := strings.Cut(beforeCursor, " ")
+	if !found {
+		return len(beforeCursor)
+	}
+	rest = strings.TrimLeft(rest, " *!")
+	if strings.HasPrefix(rest, "(") {
+		if end := strings.Index(rest, ")"); end != -1 {
+			rest = strings.TrimLeft(rest[end+1:], " ")
+		}
+	}
+	return len(beforeCursor) - len(rest)
 }
 
 func findCommodityStart(line string, byteCol int) int {
@@ -710,22 +724,10 @@ func extractQueryText(content string, pos protocol.Position, ctxType CompletionC
 
 	switch ctxType {
 	case ContextAccount:
-		if after, found := strings.CutPrefix(beforeCursor, directiveAccount); found {
-			return after
-		}
-		if after, found := strings.CutPrefix(beforeCursor, directiveApplyAccount); found {
-			return after
-		}
-		trimmed := strings.TrimLeft(beforeCursor, " \t")
-		return trimmed
+		return beforeCursor[accountQueryStart(beforeCursor):]
 
 	case ContextPayee:
-		_, after, found := strings.Cut(beforeCursor, " ")
-		if !found {
-			return ""
-		}
-		// skip the status mark as calculateTextEditRange does
-		return strings.TrimLeft(after, " *!")
+		return beforeCursor[payeeQueryStart(beforeCursor):]
 
 	case ContextCommodity:
 		if after, found := strings.CutPrefix(beforeCursor, directiveCommodity); found {
